@@ -1,4 +1,12 @@
-// Schema-2.x track commands of the C01/C06 tie.
+// Schema-2.x track commands of the C01/C06 tie and of the C11 track part.
+//   t2.tracks: key, path and derived columns of EVERY Track row (ordered by id),
+//   Information.uuid and the AUTOINCREMENT counter, read through the C API on the
+//   library's own connection; typed scalars (null / integer / s<hex text>).
+//   t2.skew <trackvar>: makes the *default* beat grid and the *default* main cue of
+//   the stored blobs differ from the adjusted ones (what Engine itself does when a
+//   grid / cue is adjusted; no library call produces that state): default grid :=
+//   one marker (12345.0, beat 7), default main cue := 54321.0.  Planted through the
+//   C API with the library's codecs; getters and snapshot() must not notice.
 //   t2.row <trackvar>: the raw Track row of the track, read through the C API
 //   on the library's own connection (no library code on the SQL path); the five
 //   BLOB columns are shown decoded (the codecs are C02–C05's subject).
@@ -104,4 +112,68 @@ DJV_CMD(t2_row, "t2.row")
     }
     sqlite3_finalize(st);
     return out;
+}
+
+DJV_CMD(t2_tracks, "t2.tracks")
+{
+    sqlite3* h = main_handle();
+    auto one = [&](const std::string& sql) -> std::string
+    {
+        sqlite3_stmt* st = nullptr;
+        if (sqlite3_prepare_v2(h, sql.c_str(), -1, &st, nullptr) != SQLITE_OK)
+            throw bad_command{std::string("prepare: ") + sqlite3_errmsg(h)};
+        std::string v = "none";
+        if (sqlite3_step(st) == SQLITE_ROW) v = col_scalar(st, 0);
+        sqlite3_finalize(st);
+        return v;
+    };
+    std::string out = "uuid=" + one("SELECT uuid FROM Information ORDER BY id LIMIT 1");
+    out += " seq=" + one("SELECT seq FROM sqlite_sequence WHERE name = 'Track'");
+    sqlite3_stmt* st = nullptr;
+    if (sqlite3_prepare_v2(
+            h, "SELECT id, path, filename, fileType, originDatabaseUuid, originTrackId FROM Track ORDER BY id", -1,
+            &st, nullptr) != SQLITE_OK)
+        throw bad_command{std::string("prepare: ") + sqlite3_errmsg(h)};
+    int n = 0;
+    std::string rows;
+    while (sqlite3_step(st) == SQLITE_ROW)
+    {
+        ++n;
+        rows += " |";
+        for (int i = 0; i < 6; ++i) rows += " " + col_scalar(st, i);
+    }
+    sqlite3_finalize(st);
+    return out + " n=" + std::to_string(n) + rows;
+}
+
+DJV_CMD(t2_skew, "t2.skew")
+{
+    auto& t = TR(a.at(1));
+    sqlite3* h = main_handle();
+    std::string id = std::to_string((long long)t.id());
+    sqlite3_stmt* st = nullptr;
+    std::string q = "SELECT beatData, quickCues FROM Track WHERE id = " + id;
+    if (sqlite3_prepare_v2(h, q.c_str(), -1, &st, nullptr) != SQLITE_OK)
+        throw bad_command{std::string("prepare: ") + sqlite3_errmsg(h)};
+    if (sqlite3_step(st) != SQLITE_ROW)
+    {
+        sqlite3_finalize(st);
+        return "none";
+    }
+    auto beat = ev2::beat_data_blob::from_blob(col_blob(st, 0));
+    auto cues = ev2::quick_cues_blob::from_blob(col_blob(st, 1));
+    sqlite3_finalize(st);
+    beat.default_beat_grid = {ev2::beat_grid_marker_blob{12345.0, 7, 0, 0}};
+    cues.default_main_cue = 54321.0;
+    auto b1 = beat.to_blob();
+    auto b2 = cues.to_blob();
+    std::string u = "UPDATE Track SET beatData = ?, quickCues = ? WHERE id = " + id;
+    if (sqlite3_prepare_v2(h, u.c_str(), -1, &st, nullptr) != SQLITE_OK)
+        throw bad_command{std::string("prepare: ") + sqlite3_errmsg(h)};
+    sqlite3_bind_blob(st, 1, b1.data(), (int)b1.size(), SQLITE_TRANSIENT);
+    sqlite3_bind_blob(st, 2, b2.data(), (int)b2.size(), SQLITE_TRANSIENT);
+    int rc = sqlite3_step(st);
+    sqlite3_finalize(st);
+    if (rc != SQLITE_DONE) throw bad_command{"t2.skew: update failed"};
+    return "";
 }
